@@ -1714,3 +1714,47 @@ Proof.
   vm_compute. discriminate.
 Qed.
 
+
+(** ---- round 4: value names and value terminators ---- *)
+(** in the class: a value name and a terminator without quote / backslash / hash ([ztame_arg] asks for both); the whole-script
+    theorems above then cover option specs [':FILE:'] and positional specs ['*;:'] *)
+Definition zl_vn_opt : arg :=
+  mkArgX (lit "o") None (Some (lit "out")) [] [] ASet None None None false false false [lit "FILE"] None false [] [].
+Definition zl_term_pos : arg :=
+  mkArgX (lit "src") None None [] [] ASet (Some (1, 3)) None None false false false [] (Some (lit "a b;")) false [] [].
+Definition zl_last_pos : arg :=
+  mkArgX (lit "rest") None None [] [] ASet None None None false false false [] None true [] [].
+Definition zl_ext_cmd : cmd := mkCmd (lit "p") [] [zl_vn_opt; zl_term_pos; zl_last_pos] [] (Some (lit "p")) false false sets0 sets0.
+Example zsh_tame_value_name_terminator :
+  ztame_cmd zl_ext_cmd = true /\
+  exists s, zsh_script zl_ext_cmd cd0 = Some s /\
+    binfix (lit "'--out=[]:FILE:_default' \") s = true /\ binfix (lit "'*a\ b;::src:_default' \") s = true /\
+    binfix (lit "'::rest:_default' \") s = true.
+Proof.
+  split; [reflexivity|]. destruct (zsh_script zl_ext_cmd cd0) as [s|] eqn:E; [|vm_compute in E; discriminate].
+  exists s. split; [reflexivity|]. vm_compute in E. inversion E; subst s. vm_compute. repeat split; reflexivity.
+Qed.
+
+(** class boundary: a VALUE NAME with a single quote is written unescaped between the colons of the option spec; it ends the
+    quoted spec early, and the help of the NEXT option is read outside the quotes, where a space separates words (the
+    family of the recorded finding C17-names-unescaped) *)
+Definition zl_untame_vn : arg :=
+  mkArgX (lit "o") None (Some (lit "out")) [] [] ASet None None None false false false [lit "a'b"] None false [] [].
+Definition zl_after_vn : arg := mkArg (lit "q") None (Some (lit "quiet")) [] [] ASetTrue None None None false false false.
+Definition zl_untame_vn_cmd : cmd := mkCmd (lit "p") [] [zl_untame_vn; zl_after_vn] [] (Some (lit "p")) false false sets0 sets0.
+Lemma zsh_untamed_value_name_refuted :
+  exists c d1 d2 s1 s2,
+    ztame_cmd c = false /\ erase_desc d1 = erase_desc d2 /\
+    zsh_script c d1 = Some s1 /\ zsh_script c d2 = Some s2 /\
+    skeleton (events sh_step ZB s1) <> skeleton (events sh_step ZB s2).
+Proof.
+  exists zl_untame_vn_cmd, (mkCd None false [mkAd None false []; mkAd (Some (lit "x y")) false []] []),
+         (mkCd None false [mkAd None false []; mkAd (Some (lit "xy")) false []] []).
+  destruct (zsh_script zl_untame_vn_cmd (mkCd None false [mkAd None false []; mkAd (Some (lit "x y")) false []] [])) as [s1|] eqn:E1;
+    [|vm_compute in E1; discriminate].
+  destruct (zsh_script zl_untame_vn_cmd (mkCd None false [mkAd None false []; mkAd (Some (lit "xy")) false []] [])) as [s2|] eqn:E2;
+    [|vm_compute in E2; discriminate].
+  exists s1, s2. split; [reflexivity|]. split; [reflexivity|]. split; [reflexivity|]. split; [reflexivity|].
+  vm_compute in E1. vm_compute in E2. apply Some_inj in E1. apply Some_inj in E2. subst s1 s2.
+  vm_compute. discriminate.
+Qed.
